@@ -21,18 +21,13 @@ impl Bucket {
     /// Allocates a bucket with space for `capacity` items
     pub(crate) fn with_capacity(capacity: NonZeroUsize) -> LassoResult<Self> {
         unsafe {
-            debug_assert!(Layout::from_size_align(
+            // A capacity above `isize::MAX` cannot be described by a `Layout` (building one
+            // unchecked would be undefined behaviour), so it is reported as a failed allocation
+            let layout = Layout::from_size_align(
                 size_of::<u8>() * capacity.get(),
                 align_of::<u8>(),
             )
-            .is_ok());
-
-            // Safety: Align will always be a non-zero power of two and the
-            //         size will not overflow when rounded up
-            let layout = Layout::from_size_align_unchecked(
-                size_of::<u8>() * capacity.get(),
-                align_of::<u8>(),
-            );
+            .map_err(|_| LassoError::new(LassoErrorKind::FailedAllocation))?;
 
             // Allocate the bucket's memory
             let items = NonNull::new(alloc(layout))
